@@ -47,12 +47,13 @@ def field_values(pgn, idev, st):
     if pgn == 126996:
         return {1: le(N2K_VERSION, 2), 2: le(PRODUCT_CODE, 2), 3: fix32(MODEL_ID), 4: fix32(SW_CODE), 5: fix32(MODEL_VER), 6: fix32(SERIAL), 7: [CERT_LEVEL], 8: [LOAD_EQ]}
     if pgn == 126998:
-        return {1: varstr(st['d1']), 2: varstr(st['d2']), 3: varstr(MANUF_INFO)}
+        return {1: varstr(st['d1']), 2: varstr(st['d2']), 3: varstr(st.get('manuf', MANUF_INFO))}
     return {}
 
 
-def fresh_state(ndev):
-    return {'devinst': [0] * ndev, 'sysinst': [0] * ndev, 'd1': b'', 'd2': b'', 'hb': [60000] * ndev}
+def fresh_state(ndev, noconf=False):
+    # noconf: the application configured no manufacturer information / descriptions at all (until a command stores one)
+    return {'devinst': [0] * ndev, 'sysinst': [0] * ndev, 'd1': b'', 'd2': b'', 'hb': [60000] * ndev, 'manuf': b'' if noconf else MANUF_INFO, 'noconf': noconf}
 
 
 def wrong(r, v):
@@ -202,6 +203,14 @@ def gen(seed, tier):
     cases.append(case(cfg1, ops_of([block(r, 'fp', 50, 22, gf_command(60928, 8, [(3, [])], count=1)), ['M', iso_request(51, 22, 60928), 'P', 'T 3', 'P']])))
     for pgn in (126996, 126464, 59392):
         cases.append(case(cfg1, ops_of([block(r, 'fp', 50, 22, gf_command(pgn, 8, [(1, [1])]))])))
+
+    # a node for which the application configured no configuration information at all: refused until a description is commanded
+    for how in ('fp', 'tp'):
+        cases.append(case(node(extra=' noconf=1'), ops_of([
+            block(r, how, 50, 22, gf_request(126998)), block(r, how, 50, 255, gf_request(126998)), ['M', iso_request(51, 22, 126998), 'P', 'T 3', 'P'],
+            block(r, how, 50, 22, gf_request(126998, pairs=[(1, varstr(b''))])), block(r, how, 50, 22, gf_request(126998, pairs=[(3, varstr(MANUF_INFO))])),
+            block(r, how, 50, 22, gf_command(126998, 8, [(2, varstr(b'aft locker'))])), ['M', iso_request(51, 22, 126998), 'P', 'T 3', 'P'],
+            block(r, how, 50, 22, gf_request(126998, pairs=[(2, varstr(b'aft locker')), (3, varstr(b''))]))])))
 
     # F. modes, multi-device nodes, broadcast requests
     for mode in (0, 1, 2, 3, 4):
@@ -455,6 +464,7 @@ def expect(d, dst, tp, idev, cfg, st, tainted=()):
                         st['sysinst'][idev] = v[0] & 15
                 else:
                     st['d1' if f == 1 else 'd2'] = bytes(v)
+                    st['noconf'] = False
         if tpec == 0:
             res['effect'] = eff
         else:
@@ -545,7 +555,7 @@ def oracle(case, res):
         return None               # the property's premises (accepting driver, room in the queue, claimed addresses) are the generator's business
     ndev, src0, mode = cfg['ndev'], cfg['src'], cfg['mode']
     own = [(src0 + i) & 255 for i in range(ndev)]
-    st = fresh_state(ndev)
+    st = fresh_state(ndev, bool(cfg.get('noconf')))
     tainted = set()
     soft = []                      # failures that are listed known findings: recorded, the implementation's behaviour is adopted, checking goes on
     alts = []                      # reference states in which a refused command has been applied after all
@@ -587,6 +597,8 @@ def oracle(case, res):
                 if x[2] != want_dst:
                     return 'requester:Acknowledge for %s went to %d instead of the requester %d' % (what, x[2], want_dst)
             served = [x for x in mine if x[0] == ex.get('pgn') and x[0] != GF]
+            if st.get('noconf') and ex.get('pgn') == 126998:
+                served = [x for x in mine if x[0] == 59392 and (x[3] is None or (x[3][0] == 1 and x[3][5:8] == le(126998, 3)))]
             if ex['kind'] == 'pgn':
                 if acks:
                     return 'match:%s selects the device and asks for a served PGN but was refused with Acknowledge %s' % (what, bytes(acks[0][3]).hex())
@@ -662,9 +674,9 @@ def oracle(case, res):
                         continue
                     return 'readback-60928:address claim of device %d carries NAME %s, the commanded instances give %016x' % (i, bytes(payload[::-1]).hex(), want)
             if pgn == 126998 and via == 'fp' and 'conf' not in tainted:
-                want = ref_confinfo(st['d1'], st['d2'])
+                want = ref_confinfo(st['d1'], st['d2'], st['manuf'])
                 if payload != want and not any(b >= 0x80 for b in st['d1'] + st['d2']):
-                    hit = [(a, w) for a, w in alts if payload == ref_confinfo(a['d1'], a['d2'])]
+                    hit = [(a, w) for a, w in alts if payload == ref_confinfo(a['d1'], a['d2'], a['manuf'])]
                     if hit:
                         w = 'refused-applied:%s was refused (priority setting not supported) but the configuration information carries the commanded text' % hit[-1][1]
                         if not is_known(w):
